@@ -1,7 +1,7 @@
 //! Loop3D: histories of push/close (C04), point tests (C05), measures (C10).
 use crate::gen::*;
 use crate::util::*;
-use geometry3d::{Loop3D, Point3D, Segment3D};
+use geometry3d::{Loop3D, Point3D, Polygon3D, Segment3D};
 
 pub fn err_class(msg: &str) -> u32 {
     let table: [(&str, u32); 14] = [
@@ -173,3 +173,335 @@ pub fn replay_c04(args: &[String]) {
 }
 #[allow(dead_code)]
 pub fn seg(a: Point3D, b: Point3D) -> Segment3D { Segment3D::new(a, b) }
+
+
+// ---------------------------------------------------------------------------------------------
+// C10: area / perimeter / normal / centroid of closed loops and of their variants
+// ---------------------------------------------------------------------------------------------
+
+/// push all points, then close: (outcome class, loop).  class 0 = closed successfully
+pub fn build_loop(pts: &[Point3D]) -> (u32, Loop3D) {
+    let mut l = Loop3D::new();
+    for p in pts {
+        let o = apply_op(&mut l, &Op::Push(*p, "p"));
+        if o != 0 { return (o, l); }
+    }
+    let o = apply_op(&mut l, &Op::Close);
+    (o, l)
+}
+struct Variant { kind: &'static str, k: usize, pts: Vec<Point3D>, mat: Option<[Float; 16]> }
+fn variant_out(v: &Variant) -> (String, String) {
+    let (o, l) = build_loop(&v.pts);
+    let pin: Vec<Float> = v.pts.iter().flat_map(|p| vec![p.x, p.y, p.z]).collect();
+    let (vs, nn, _closed, ap) = snapshot(&l);
+    let c = if o == 0 { match catch(std::panic::AssertUnwindSafe(|| l.centroid())) { Ok(Ok(c)) => vec![c.x, c.y, c.z], _ => vec![] } } else { vec![] };
+    let (vs, nn, ap) = if o == 0 { (vs, nn, ap) } else { (vec![], vec![], vec![]) };
+    // the polygon without holes made of this loop: area, normal, outer centroid (7 numbers; empty when it cannot be made)
+    let pg: Vec<Float> = if o == 0 {
+        match catch(std::panic::AssertUnwindSafe(|| Polygon3D::new(l.clone()).map(|p| (p.area(), p.normal(), p.outer_centroid())))) {
+            Ok(Ok((a, n, c))) => vec![a, n.x, n.y, n.z, c.x, c.y, c.z], _ => vec![] }
+    } else { vec![] };
+    let coq = format!("({}, ({}%N, {}, {}, {}, {}, {}))", sfs(&pin), o, sfs(&vs), sfs(&nn), sfs(&ap), sfs(&c), sfs(&pg));
+    let mat = match &v.mat { Some(m) => jfs(&m[..]), None => "null".to_string() };
+    let js = format!("{{\"kind\":\"{}\",\"k\":{},\"pts\":{},\"o\":{},\"v\":{},\"n\":{},\"ap\":{},\"c\":{},\"pg\":{},\"mat\":{}}}", v.kind, v.k, jfs(&pin), o, jfs(&vs), jfs(&nn), jfs(&ap), jfs(&c), jfs(&pg), mat);
+    (coq, js)
+}
+fn to3(fr: &Frame, p: &[P2]) -> Vec<Point3D> { p.iter().map(|q| fr.at(q.0, q.1)).collect() }
+
+/// one family: a base outline and its cyclic shifts, reversal, collinear enrichments and rigidly moved copies
+fn c10_family(r: &mut Rng, nmax: usize) -> Option<(Vec<Variant>, String)> {
+    let fr = Frame::random(r, 1000.0);
+    let (poly, fam) = simple_polygon(r, nmax);
+    if !corners_ok(&poly, 1e-4) { return None; }
+    let poly = if r.chance(0.5) { reversed(&poly) } else { poly };
+    let n = poly.len();
+    // first corner: with probability 1/2 start just before a reflex corner when there is one (the normal is taken from the first three vertices)
+    let ccw = area2(&poly) > 0.0;
+    let reflex: Vec<usize> = (0..n).filter(|i| { let c = cross2(poly[*i], poly[(i + 1) % n], poly[(i + 2) % n]); if ccw { c < 0.0 } else { c > 0.0 } }).collect();
+    let start = if !reflex.is_empty() && r.chance(0.5) { *r.pick(&reflex) } else { r.below(n as u64) as usize };
+    let base = rotate_start(&poly, start);
+    let first_reflex = { let c = cross2(base[0], base[1], base[2]); if ccw { c < 0.0 } else { c > 0.0 } };
+    let mut vs: Vec<Variant> = vec![];
+    let base3 = to3(&fr, &base);
+    vs.push(Variant { kind: "base", k: 0, pts: base3.clone(), mat: None });
+    let k1 = 1 + r.below((n - 1) as u64) as usize;
+    vs.push(Variant { kind: "shift", k: 1, pts: to3(&fr, &rotate_start(&base, 1)), mat: None });
+    if k1 != 1 { vs.push(Variant { kind: "shift", k: k1, pts: to3(&fr, &rotate_start(&base, k1)), mat: None }); }
+    vs.push(Variant { kind: "reverse", k: 0, pts: to3(&fr, &reversed(&base)), mat: None });
+    let k2 = r.below(n as u64) as usize;
+    vs.push(Variant { kind: "reverse", k: k2, pts: to3(&fr, &rotate_start(&reversed(&base), k2)), mat: None });
+    // redundant collinear points (the first variant keeps the start vertex; the second starts at an inserted point when there is one)
+    for attempt in 0..2 {
+        let enr = with_collinear(r, &base, if attempt == 0 { 0.35 } else { 0.6 });
+        if enr.len() == base.len() || enr.len() > 90 || !corners_ok(&enr, 1e-4) { continue; }
+        if attempt == 0 { vs.push(Variant { kind: "collinear", k: 0, pts: to3(&fr, &enr), mat: None }); }
+        else {
+            // start at an inserted point: an index whose point is not a vertex of the base
+            let ins: Vec<usize> = (0..enr.len()).filter(|i| !base.iter().any(|b| b.0 == enr[*i].0 && b.1 == enr[*i].1)).collect();
+            let s = *r.pick(&ins);
+            vs.push(Variant { kind: "collinear", k: s, pts: to3(&fr, &rotate_start(&enr, s)), mat: None });
+        }
+    }
+    for _ in 0..2 {
+        let sh = if r.chance(0.5) { 10.0 } else { 1000.0 };
+        let t = rigid_motion(r, sh);
+        let pts: Vec<Point3D> = base3.iter().map(|p| t.transform_pt(*p)).collect();
+        // the moved copy must stay within the offsets of the property (1e3 per coordinate, loosely)
+        if pts.iter().any(|p| p.x.abs() > 4000.0 || p.y.abs() > 4000.0 || p.z.abs() > 4000.0) { continue; }
+        vs.push(Variant { kind: "rigid", k: 0, pts, mat: Some(t.verif_elements().0) });
+    }
+    let note = format!("{}:{}:plane{}:{}", fam, n, fr.kind, if first_reflex { "reflex-first" } else { "convex-first" });
+    Some((vs, note))
+}
+pub fn run_c10(seed: u64, n: usize, out: &str) {
+    let mut r = Rng::new(seed ^ 0xC10);
+    let mut sink = Sink::new(out, "C10", 12);
+    while sink.len() < n {
+        let big = r.chance(0.2);
+        let Some((vs, note)) = c10_family(&mut r, if big { 60 } else { 16 }) else { continue };
+        let outs: Vec<(String, String)> = vs.iter().map(variant_out).collect();
+        sink.push(
+            format!("[{}]", outs.iter().map(|o| o.0.clone()).collect::<Vec<_>>().join("; ")),
+            format!("{{\"note\":\"{}\",\"variants\":[{}]}}", note, outs.iter().map(|o| o.1.clone()).collect::<Vec<_>>().join(",")),
+        );
+    }
+    sink.flush();
+}
+/// args: kind k npts (bits x y z)*npts [16 matrix bits] ; repeated per variant
+pub fn replay_c10(args: &[String]) {
+    let mut i = 0; let mut outs = vec![];
+    while i < args.len() {
+        let kind: &'static str = match args[i].as_str() { "base" => "base", "shift" => "shift", "reverse" => "reverse", "collinear" => "collinear", _ => "rigid" };
+        let k: usize = args[i + 1].parse().unwrap(); let np: usize = args[i + 2].parse().unwrap(); i += 3;
+        let mut pts = vec![];
+        for _ in 0..np { pts.push(Point3D::new(Float::from_bits(args[i].parse().unwrap()), Float::from_bits(args[i + 1].parse().unwrap()), Float::from_bits(args[i + 2].parse().unwrap()))); i += 3; }
+        let mat = if kind == "rigid" { let mut m = [0.0 as Float; 16]; for j in 0..16 { m[j] = Float::from_bits(args[i + j].parse().unwrap()); } i += 16; Some(m) } else { None };
+        outs.push(variant_out(&Variant { kind, k, pts, mat }).1);
+    }
+    println!("{{\"note\":\"replay\",\"variants\":[{}]}}", outs.join(","));
+}
+
+// ---------------------------------------------------------------------------------------------
+// C05: point-in-loop / point-in-polygon
+// ---------------------------------------------------------------------------------------------
+
+/// result class of a point test: 0 = Ok(false), 1 = Ok(true), 100 + class = Err, 99 = panic
+fn test_class(r: Result<Result<bool, String>, String>) -> u32 {
+    match r { Ok(Ok(false)) => 0, Ok(Ok(true)) => 1, Ok(Err(m)) => 100 + err_class(&m), Err(_) => 99 }
+}
+fn loop_state_coq(l: &Loop3D) -> String {
+    let s = snapshot(l);
+    format!("({}, {}, {})", sfs(&s.0), sfs(&s.1), coq_bool(s.2))
+}
+fn loop_state_json(l: &Loop3D) -> String {
+    let s = snapshot(l);
+    format!("{{\"v\":{},\"n\":{},\"closed\":{}}}", jfs(&s.0), jfs(&s.1), s.2)
+}
+struct Query { p: Point3D, lab: &'static str }
+
+/// query points for an outline given in 2-D (`poly` = the 2-D positions of the stored vertices, in stored order)
+fn c05_queries(r: &mut Rng, fr: &Frame, poly: &[P2], extra: &[Vec<P2>], nuniform: usize) -> Vec<Query> {
+    let mut qs: Vec<Query> = vec![];
+    let n = poly.len();
+    let b = bbox2(poly);
+    let (w, h) = (b.2 - b.0, b.3 - b.1);
+    let pad = 0.15 * w.max(h);
+    for _ in 0..nuniform { qs.push(Query { p: fr.at(r.range(b.0 - pad, b.2 + pad), r.range(b.1 - pad, b.3 + pad)), lab: "uniform" }); }
+    let mut outlines: Vec<&[P2]> = vec![poly];
+    for e in extra { outlines.push(&e[..]); }
+    for (oi, pl) in outlines.iter().enumerate() {
+        let m = pl.len();
+        // a subset of edges / vertices when the outline is long
+        let stride = if m > 12 { 1 + r.below(3) as usize } else { 1 };
+        let mut i = r.below(stride as u64) as usize;
+        while i < m {
+            let (a, bb) = (pl[i], pl[(i + 1) % m]);
+            let (ex, ey) = (bb.0 - a.0, bb.1 - a.1); let el = (ex * ex + ey * ey).sqrt();
+            if el > 0.0 {
+                let (nx, ny) = (-ey / el, ex / el);
+                let mid = ((a.0 + bb.0) / 2.0, (a.1 + bb.1) / 2.0);
+                // both sides of the edge midpoint, 1e-4 .. 1e-1
+                let dist = (10.0f64).powf(r.range(-4.0, -1.0));
+                for s in [1.0, -1.0] { qs.push(Query { p: fr.at(mid.0 + s * dist * nx, mid.1 + s * dist * ny), lab: "edge-mid" }); }
+                // both sides of the vertex a (along the edge normal and along a random direction)
+                let dist = (10.0f64).powf(r.range(-4.0, -1.0));
+                let ang = r.range(0.0, std::f64::consts::TAU);
+                for s in [1.0, -1.0] { qs.push(Query { p: fr.at(a.0 + s * dist * ang.cos(), a.1 + s * dist * ang.sin()), lab: "vertex" }); }
+                // prolongation of the edge beyond b (the test ray of a later query may run along it; also the `contains_point` parameter test)
+                if oi == 0 && r.chance(0.5) { let t = r.range(0.02, 1.0); qs.push(Query { p: fr.at(bb.0 + t * ex, bb.1 + t * ey), lab: "prolongation" }); }
+            }
+            i += stride;
+        }
+    }
+    // the internal ray leaves from q away from the midpoint of the first stored edge: aim it at vertices and along edges
+    let m0 = ((poly[0].0 + poly[1].0) / 2.0, (poly[0].1 + poly[1].1) / 2.0);
+    for _ in 0..(2 + n / 4) {
+        let v = poly[2 + r.below((n - 2) as u64) as usize];
+        let s = r.range(0.05, 0.95);
+        qs.push(Query { p: fr.at(m0.0 + s * (v.0 - m0.0), m0.1 + s * (v.1 - m0.1)), lab: "aim-vertex" });
+    }
+    // along the first edge (the ray runs along it) on both prolongations
+    { let (a, bb) = (poly[0], poly[1]); let t = r.range(0.05, 1.0);
+      qs.push(Query { p: fr.at(bb.0 + t * (bb.0 - a.0), bb.1 + t * (bb.1 - a.1)), lab: "along-first" });
+      qs.push(Query { p: fr.at(a.0 - t * (bb.0 - a.0), a.1 - t * (bb.1 - a.1)), lab: "along-first" }); }
+    // near the midpoint of the first edge, any direction (finding F7: the ray is 1000 (q - m))
+    for _ in 0..4 {
+        let dist = (10.0f64).powf(r.range(-4.0, -1.0)); let ang = r.range(0.0, std::f64::consts::TAU);
+        qs.push(Query { p: fr.at(m0.0 + dist * ang.cos(), m0.1 + dist * ang.sin()), lab: "near-first-mid" });
+    }
+    // decision boundaries (for the correspondence; mostly inside the oracle's tolerance bands): the 1e-7 coplanarity gate and the
+    // 1e-5 product threshold of the on-edge shortcut (distance x edge length), both sides of each
+    for f in [0.5, 0.99, 1.01, 2.0] {
+        let sgn = if r.chance(0.5) { 1.0 } else { -1.0 };
+        qs.push(Query { p: fr.off(r.range(b.0, b.2), r.range(b.1, b.3), sgn * f * 1e-7), lab: "boundary-plane" });
+    }
+    for _ in 0..2 {
+        let i = r.below(n as u64) as usize; let (a, bb) = (poly[i], poly[(i + 1) % n]);
+        let (ex, ey) = (bb.0 - a.0, bb.1 - a.1); let el = (ex * ex + ey * ey).sqrt();
+        if el > 0.0 { let t = r.range(0.1, 0.9);
+            for f in [0.9, 1.1] { let dist = f * 1e-5 / el; let sgn = if r.chance(0.5) { 1.0 } else { -1.0 };
+                qs.push(Query { p: fr.at(a.0 + t * ex - sgn * dist * ey / el, a.1 + t * ey + sgn * dist * ex / el), lab: "boundary-edge" }); } }
+    }
+    // off-plane 1e-6 .. 1 (both sides), over interior and exterior positions
+    for _ in 0..4 {
+        let hgt = (10.0f64).powf(r.range(-6.0, 0.0)) * if r.chance(0.5) { 1.0 } else { -1.0 };
+        qs.push(Query { p: fr.off(r.range(b.0, b.2), r.range(b.1, b.3), hgt), lab: "off-plane" });
+    }
+    qs
+}
+/// the 2-D coordinates of stored vertices in the frame (exact enough for placing queries)
+fn to2(fr: &Frame, l: &Loop3D) -> Vec<P2> {
+    l.vertices().iter().map(|p| {
+        let d = [p.x as f64 - fr.o[0], p.y as f64 - fr.o[1], p.z as f64 - fr.o[2]];
+        (d[0] * fr.e1[0] + d[1] * fr.e1[1] + d[2] * fr.e1[2], d[0] * fr.e2[0] + d[1] * fr.e2[1] + d[2] * fr.e2[2])
+    }).collect()
+}
+enum Subject { Loop(Loop3D), Poly(Polygon3D) }
+fn c05_case(r: &mut Rng) -> Option<(Subject, Frame, String)> {
+    let off = if r.chance(0.5) { 10.0 } else { 1000.0 };
+    let fr = Frame::random(r, off);
+    let big = r.chance(0.2);
+    let (poly, fam) = simple_polygon(r, if big { 40 } else { 12 });
+    if !corners_ok(&poly, 1e-4) { return None; }
+    let poly = if r.chance(0.5) { reversed(&poly) } else { poly };
+    let poly = rotate_start(&poly, r.below(poly.len() as u64) as usize);
+    let outer = make_loop(&fr, &poly)?;
+    let kind = match r.below(20) { 0..=8 => 0u64, 9 => 5, 10..=15 => 6, _ => 8 };
+    if kind < 5 {
+        return Some((Subject::Loop(outer), fr.clone(), format!("loop:{}:{}:plane{}", fam, poly.len(), fr.kind)));
+    }
+    if kind == 5 {
+        // an open loop: every test must be an error
+        let mut l = Loop3D::new();
+        for p in poly.iter() { l.push(fr.at(p.0, p.1)).ok()?; }
+        return Some((Subject::Loop(l), fr.clone(), format!("open:{}:{}:plane{}", fam, poly.len(), fr.kind)));
+    }
+    // polygons with holes (kind 6,7: tested as polygons; 8,9: merged into one weakly simple outline with bridges)
+    let mut pg = Polygon3D::new(outer).ok()?;
+    let nh = if kind >= 8 { 1 + r.below(2) } else { r.below(4) } as usize;
+    let mut attempts = 0;
+    let mut centres: Vec<(P2, f64)> = vec![];
+    let scale = { let b = bbox2(&poly); (b.2 - b.0).min(b.3 - b.1) };
+    while centres.len() < nh && attempts < 6 * nh {
+        attempts += 1;
+        let rad = scale * r.range(0.04, 0.12);
+        let Some(c) = interior_point(r, &poly, 2.5 * rad) else { continue };
+        if centres.iter().any(|(d, rr)| ((d.0 - c.0).powi(2) + (d.1 - c.1).powi(2)).sqrt() < 2.5 * (rad + rr)) { continue; }
+        let k = 3 + r.below(4) as usize;
+        let (ccw, st) = (r.chance(0.5), r.below(k as u64) as usize);
+        let hole2 = small_hole(r, c, rad, k, ccw, st);
+        if !corners_ok(&hole2, 1e-4) { continue; }
+        let Some(hl) = make_loop(&fr, &hole2) else { continue };
+        let ok = catch(std::panic::AssertUnwindSafe(|| { let mut c2 = pg.clone(); c2.cut_hole(hl).map(|_| c2) }));
+        if let Ok(Ok(p2)) = ok { pg = p2; centres.push((c, rad)); }
+    }
+    if kind >= 8 {
+        if pg.n_inner_loops() == 0 { return None; }
+        let l = catch(std::panic::AssertUnwindSafe(|| { let mut l = pg.get_closed_loop(); l.close().map(|_| l) })).ok()?.ok()?;
+        return Some((Subject::Loop(l), fr.clone(), format!("bridged{}:{}:{}:plane{}", pg.n_inner_loops(), fam, poly.len(), fr.kind)));
+    }
+    let nh = pg.n_inner_loops();
+    Some((Subject::Poly(pg), fr.clone(), format!("poly{}:{}:{}:plane{}", nh, fam, poly.len(), fr.kind)))
+}
+fn c05_emit(sub: &Subject, qs: &[Query], note: &str) -> (String, String) {
+    let (outer, holes): (&Loop3D, Vec<&Loop3D>) = match sub {
+        Subject::Loop(l) => (l, vec![]),
+        Subject::Poly(p) => (p.outer(), (0..p.n_inner_loops()).map(|i| p.inner(i).unwrap()).collect()),
+    };
+    let is_poly = matches!(sub, Subject::Poly(_));
+    let mut cq = vec![]; let mut jq = vec![];
+    for q in qs {
+        let p = q.p;
+        let res = match sub {
+            Subject::Loop(l) => test_class(catch(std::panic::AssertUnwindSafe(|| l.test_point(p)))),
+            Subject::Poly(pg) => test_class(catch(std::panic::AssertUnwindSafe(|| pg.test_point(p)))),
+        };
+        // the answers of the individual loops (outer, holes) -- for the oracle's attribution only
+        let parts: Vec<String> = if is_poly {
+            std::iter::once(outer).chain(holes.iter().copied()).map(|l| test_class(catch(std::panic::AssertUnwindSafe(|| l.test_point(p)))).to_string()).collect()
+        } else { vec![res.to_string()] };
+        cq.push(format!("({}, {}%N)", sfs(&[p.x, p.y, p.z]), res));
+        jq.push(format!("{{\"p\":{},\"r\":{},\"parts\":[{}],\"lab\":\"{}\"}}", jfs(&[p.x, p.y, p.z]), res, parts.join(","), q.lab));
+    }
+    let coq = format!("({}, {}, ([{}] : list lstate), [{}])", coq_bool(is_poly), loop_state_coq(outer), holes.iter().map(|h| loop_state_coq(h)).collect::<Vec<_>>().join("; "), cq.join("; "));
+    let js = format!("{{\"note\":\"{}\",\"poly\":{},\"outer\":{},\"holes\":[{}],\"queries\":[{}]}}", note, is_poly, loop_state_json(outer),
+        holes.iter().map(|h| loop_state_json(h)).collect::<Vec<_>>().join(","), jq.join(","));
+    (coq, js)
+}
+pub fn run_c05(seed: u64, n: usize, out: &str) { run_c05_as(seed, n, out, "C05") }
+/// `module` = the Coq runner module: "C05" (the code as it is) or "C05p" (the model of the proposed ray-length repair,
+/// to be used only with a crate copy that carries the repair)
+pub fn run_c05_as(seed: u64, n: usize, out: &str, module: &str) {
+    let mut r = Rng::new(seed ^ 0xC05);
+    let mut sink = Sink::new(out, module, 10);
+    // the witness of DESIGN F7 first: unit square, q = (0.5, 1e-4, 0)
+    {
+        let fr = Frame::xy();
+        let sq = make_loop(&fr, &[(0.0, 0.0), (1.0, 0.0), (1.0, 1.0), (0.0, 1.0)]).unwrap();
+        let qs = vec![Query { p: Point3D::new(0.5, 1e-4, 0.0), lab: "near-first-mid" }, Query { p: Point3D::new(0.5, 0.5, 0.0), lab: "uniform" },
+                      Query { p: Point3D::new(0.5, -1e-4, 0.0), lab: "near-first-mid" }, Query { p: Point3D::new(0.5, 0.5, 1e-6), lab: "off-plane" }];
+        let (c, j) = c05_emit(&Subject::Loop(sq), &qs, "loop:unit-square:4:plane0");
+        sink.push(c, j);
+    }
+    while sink.len() < n {
+        let Some((sub, fr, note)) = c05_case(&mut r) else { continue };
+        let (outer2, holes2): (Vec<P2>, Vec<Vec<P2>>) = match &sub {
+            Subject::Loop(l) => (to2(&fr, l), vec![]),
+            Subject::Poly(p) => (to2(&fr, p.outer()), (0..p.n_inner_loops()).map(|i| to2(&fr, p.inner(i).unwrap())).collect()),
+        };
+        if outer2.len() < 3 { continue; }
+        let nu = 6 + r.below(10) as usize;
+        let qs = c05_queries(&mut r, &fr, &outer2, &holes2, nu);
+        let (c, j) = c05_emit(&sub, &qs, &note);
+        sink.push(c, j);
+    }
+    sink.flush();
+}
+/// args: is_poly nloops, per loop: closed nverts (bits x y z)* (bits normal x y z); then queries (bits x y z)*
+/// The loops are rebuilt through push/close (their stored state is checked to be the same as recorded).
+pub fn replay_c05(args: &[String]) {
+    let is_poly = args[0] == "1"; let nl: usize = args[1].parse().unwrap();
+    let mut i = 2; let mut loops: Vec<Loop3D> = vec![]; let mut same = true;
+    let f = |s: &String| Float::from_bits(s.parse().unwrap());
+    for _ in 0..nl {
+        let closed = args[i] == "1"; let nv: usize = args[i + 1].parse().unwrap(); i += 2;
+        let mut l = Loop3D::new();
+        let mut vs = vec![];
+        for _ in 0..nv { let p = Point3D::new(f(&args[i]), f(&args[i + 1]), f(&args[i + 2])); i += 3; vs.push(p); let _ = l.push(p); }
+        if closed { let _ = l.close(); }
+        let nn = [f(&args[i]), f(&args[i + 1]), f(&args[i + 2])]; i += 3;
+        let s = snapshot(&l);
+        let vflat: Vec<Float> = vs.iter().flat_map(|p| vec![p.x, p.y, p.z]).collect();
+        if s.0.iter().map(|x| x.to_bits()).ne(vflat.iter().map(|x| x.to_bits())) || s.1.iter().map(|x| x.to_bits()).ne(nn.iter().map(|x| x.to_bits())) { same = false; }
+        loops.push(l);
+    }
+    let mut qs = vec![];
+    while i + 2 < args.len() { qs.push(Query { p: Point3D::new(f(&args[i]), f(&args[i + 1]), f(&args[i + 2])), lab: "replay" }); i += 3; }
+    let sub = if is_poly {
+        let mut pg = Polygon3D::new(loops[0].clone()).unwrap();
+        for h in loops[1..].iter() { if pg.cut_hole(h.clone()).is_err() { same = false; } }
+        Subject::Poly(pg)
+    } else { Subject::Loop(loops[0].clone()) };
+    let (_, j) = c05_emit(&sub, &qs, if same { "replay" } else { "replay:state-differs" });
+    println!("{}", j);
+}
